@@ -198,6 +198,64 @@ func driveReader(src io.Reader, c rcfg, bufs []int, limit int) (evs []event, par
 	}
 }
 
+// like driveReader, but per message: 'r' read it, 'd' Discard it at once, 'p' read one buffer then Discard
+func driveReaderPat(src io.Reader, c rcfg, bufs []int, pat string, limit int) (evs []event, partial []byte, err error) {
+	var ms wsflate.MessageState
+	rd := newReader(src, c, &evs, &ms)
+	for m := 0; ; m++ {
+		hdr, e := rd.NextFrame()
+		if e != nil {
+			return evs, nil, e
+		}
+		switch pat[m%len(pat)] {
+		case 'd':
+			if e := rd.Discard(); e != nil {
+				return evs, nil, e
+			}
+		case 'p':
+			buf := make([]byte, bufs[0])
+			n, e := rd.Read(buf)
+			if e == io.EOF {
+				evs = append(evs, event{byte(hdr.OpCode), false, ms.IsCompressed(), buf[:n]})
+				continue
+			}
+			if e != nil {
+				return evs, buf[:n], e
+			}
+			if e := rd.Discard(); e != nil {
+				return evs, nil, e
+			}
+		default:
+			var p []byte
+			done := false
+			for i := 0; !done; i++ {
+				buf := make([]byte, bufs[i%len(bufs)])
+				n, e := rd.Read(buf)
+				p = append(p, buf[:n]...)
+				if e == io.EOF {
+					done = true
+				} else if e != nil {
+					return evs, p, e
+				} else if i > limit {
+					return evs, p, errHang
+				}
+			}
+			evs = append(evs, event{byte(hdr.OpCode), false, ms.IsCompressed(), p})
+		}
+		if m > limit {
+			return evs, nil, errHang
+		}
+	}
+}
+
+// RDD: valid frames through the read/discard-pattern loop
+func runRDD(c *ctx, cfg rcfg, fs []sframe, spec, tail, bufs, pat string) {
+	w := wireOf(fs)
+	src := newChunkReader(w, spec, tail)
+	evs, partial, err := driveReaderPat(src, cfg, intsSpec(bufs), pat, 2*len(w)+100)
+	c.emit("RDD %s %s %s %s %s %s -> %s %s %s", cfg.tok(), framesTok(fs), spec, tail, bufs, pat, eventsTok(evs), hx(partial), readErrClass(err))
+}
+
 // RD / RC: frames (optionally cut after cutlen bytes) through the drive loop
 func runRD(c *ctx, kind string, cfg rcfg, fs []sframe, cut string, spec, tail, bufs string) {
 	w := wireOf(fs)
@@ -288,6 +346,7 @@ func init() {
 			runRM(c, kind, byte(st), parseFrames(in[1]), in[2], in[3], in[4])
 		}
 	}
+	replayers["RDD"] = func(c *ctx, in []string) { runRDD(c, parseCfg(in[0]), parseFrames(in[1]), in[2], in[3], in[4], in[5]) }
 	replayers["RS"] = func(c *ctx, in []string) { runRS(c, parseCfg(in[0]), unhx(in[1]), in[2], in[3], in[4]) }
 }
 
@@ -302,11 +361,18 @@ func (c *ctx) payload(n int) []byte {
 	return p
 }
 
+// sameKey > 0: every masked frame reuses one key (legal, and what a lazy client does)
+var sameKey = 0
+
 func (c *ctx) mkFrame(side byte, fin bool, op byte, n int) sframe {
 	f := sframe{fin: fin, op: op, payload: c.payload(n)}
 	if side == 1 { // we are the server: peer frames are masked
 		f.masked = true
-		c.rng.Read(f.key[:])
+		if sameKey > 0 {
+			f.key = [4]byte{0x37, 0xfa, 0x21, byte(sameKey)}
+		} else {
+			c.rng.Read(f.key[:])
+		}
 	}
 	return f
 }
